@@ -70,6 +70,8 @@ theorem hasType_mono {Γ Γ' : Env} (hx : Extends Γ Γ') : ∀ (e : IExpr) (τ 
     | indexV ha hi hl => exact .indexV (hasType_mono hx a _ ha) (hasType_mono hx i _ hi) hl
     | indexM ha hi hl => exact .indexM (hasType_mono hx a _ ha) (hasType_mono hx i _ hi) hl
     | indexA ha hi hl ho => exact .indexA (hasType_mono hx a _ ha) (hasType_mono hx i _ hi) hl (by rw [hx.2.1]; exact ho)
+    | indexR ha hi hl ho hr =>
+      exact .indexR (hasType_mono hx a _ ha) (hasType_mono hx i _ hi) hl (by rw [hx.2.1]; exact ho) hr
   | .member e sid idx, _, h => by
     cases h with
     | member he hl ho hm => exact .member (hasType_mono hx e _ he) hl (by rw [hx.2.1]; exact ho) hm
@@ -109,6 +111,7 @@ theorem initTyped_mono {Γ Γ' : Env} (hx : Extends Γ Γ') : ∀ (i : IInit) (t
         | struct ms => exact initsZip_mono hx items _ h
         | void => exact h.elim
         | object => exact h.elim
+        | resource _ _ => exact h.elim
     | scalar _ => exact h.elim
     | matrix _ _ _ => exact h.elim
     | enum _ => exact h.elim
